@@ -710,6 +710,14 @@ class HarnessRT(object):
         self.orphans.append(leaf)
         self.emit("orphan", leaf.kind, leaf.path if leaf.path is not None else leaf.inst)
 
+    def sync_item(self, fr, st):
+        _, site, kind, key = st
+        inst = (fr.path, "s", site)
+        it = HItem(self, kind, key, inst)
+        self.items[inst] = it
+        self.emit("syncitem", fr.path, inst)
+        return it.value()
+
     def sync_call(self, fr, st):
         _, site, nid, how = st
         path = fr.path + (site,)
@@ -731,7 +739,7 @@ class HarnessRT(object):
 
     # ---- scheduler events
     def _before(self, batch):
-        self.emit("flush_before", getattr(batch, "bid", ("dbg", id(batch))))
+        self.emit("flush_before", batch_label(batch))
         for p in self.before_probes:
             p(self, batch)
         self.before_count += 1
@@ -743,7 +751,7 @@ class HarnessRT(object):
             batch.flush()  # public API; the scheduler's own flush() will now raise BatchingError
 
     def _after(self, batch):
-        self.emit("flush_after", getattr(batch, "bid", ("dbg", id(batch))))
+        self.emit("flush_after", batch_label(batch))
         for p in self.after_probes:
             p(self, batch)
 
@@ -798,6 +806,13 @@ class HarnessRT(object):
             self.emit("top_exit")
             self.detach()
         return out
+
+
+def batch_label(batch):
+    b = getattr(batch, "bid", None)
+    if b is not None:
+        return b
+    return ("dbg", getattr(batch, "name", "?"), getattr(batch, "index", -1))
 
 
 def reset_debug_batches():
